@@ -1,73 +1,147 @@
 """Configuration of ./check for C18 (see tools/props.py)."""
-ENTRY = {
-    'coq_dir': 'C18',
-    'harness': 'c18',
-    'cases': {'quick': 15000, 'thorough': 400000},
-    'consts': ['MAX_INLINE_KEY_LENGTH', 'MULTIHASH_IDENTITY_CODE', 'PEER_ID_MULTIHASH_SIZE', 'PEER_ID_SITES'],
-    'nontrivial_min_trace': 4,
-    # second build of the harness with the cargo features under which the TLS certificate parser (QUIC) and RSA
-    # identity keys exist; thorough tier only (the build alone takes minutes)
-    'aux_stream': {'tiers': ['thorough'], 'features': 'quic,rsa', 'target_dir': 'target-quic', 'args': '--aux 1',
-                   'cases': {'thorough': 15000}, 'corpus': 'corpus/C18-aux'},
-    'rule': 'seeded inputs of eight kinds, each run through litep2p, the extracted Coq model and libp2p-identity 0.2.14 (three-way): '
-            '(1) byte strings built around multihashes of codes {0x00,0x11,0x12,0x13,0x16,0xb220,random u64} x digest lengths 0-70 with '
-            'declared!=actual lengths, zero-padded / over-long / overflowing / cut varints, trailing and missing bytes, and random strings -> '
-            'PeerId::from_bytes, and on the same input TryFrom<Vec<u8>>, binary Deserialize, Multihash::from_bytes + TryFrom<Multihash> / '
-            "from_multihash (all must agree); (2) their base58 texts with invalid characters, extra leading/trailing '1', substitutions -> "
-            'PeerId::from_str, and on the same input str::parse, human-readable Deserialize, serde_json, /p2p/<text> and /ipfs/<text> '
-            '(all must agree); (3) binary /p2p multiaddress components with the same varint styles on the protocol id and length -> '
-            'Multiaddr::try_from + try_from_multiaddr; (4) protobuf key blobs of 0-100 bytes from a protobuf-aware mutator (field order, '
-            'repeated and unknown fields of every wire type, non-minimal varints, key types 0-4 and out of range, wrong lengths, bit flips, '
-            "truncation, random) -> from_public_key_protobuf, RemotePublicKey::from_protobuf_encoding + to_peer_id versus the reference's "
-            'try_decode_protobuf + to_peer_id; (5) random Ed25519 keypairs with canonical or mutated encodings pushed through the real Noise '
-            'identity check with a valid signature, plus from_public_key / From / to_peer_id / is_public_key on the key; (6) textual '
-            'multiaddresses made of p2p, ipfs (legacy alias) and p2p-circuit components with malformed variants -> Multiaddr::from_str + '
-            'try_from_multiaddr; (7) pairs of ids (equal, one byte apart, same digest under the other code, one digest a prefix of the '
-            'other) -> PartialEq, Ord/PartialOrd in both directions, Hash, against equality and lexicographic order of to_bytes and equality '
-            'of to_base58; (8) PeerId::random draws. Every accepted id is rendered to bytes, base58 and a /p2p component (compared with the '
-            'model) and converted back through nine paths (from_bytes, from_str/Display, Protocol::P2p via the infallible From, binary '
-            'multiaddr, textual multiaddr, serde_json, binary serde both ways, TryFrom<Vec<u8>>/From<PeerId> for Vec<u8>, '
-            'Multihash/multiaddr::PeerId); result class (value / reject / PANIC) is compared. Thorough tier, second stream (harness rebuilt '
-            'with --features quic,rsa): (9) the same keypair cases through a TLS certificate whose libp2p extension carries the (mutated) '
-            'encoding, parsed and verified by crypto::tls::certificate::parse as QUIC does; (10) rust-libp2p\'s RSA test keys (2048/3072/4096) '
-            'with mutated protobuf framing / DER through from_protobuf_encoding + to_peer_id, the Noise identity check and the TLS '
-            'certificate, with real RSA signatures. A case is non-trivial when its trace has >= 4 numbers',
-    'trusted_base': ["SHA-256 is not modelled: digests are supplied by the harness (sha2 crate) and compared with litep2p's "
-                     'multihash-codetable digest; theorems quantify over every hash function',
-                     'the prost protobuf decoder, the curve25519 point check and the X.509 parser are not modelled: for key blobs the accept '
-                     'bit and decoded key are an oracle taken from RemotePublicKey::from_protobuf_encoding (a parameter `dec` in the '
-                     'theorems); only the canonical form 08 01 12 20 || key is decided by the model; agreement of the accept bit with the '
-                     'reference decoder is checked differentially (Ed25519)',
-                     'the reference is libp2p-identity 0.2.14 as linked into the harness (multiaddr::PeerId is the same type); its admission '
-                     'rule is also transcribed as ref_admits. Its `rsa` feature does not build offline (asn1_der missing), so for RSA the '
-                     'reference rule (SHA-256 of 08 00 12 len SubjectPublicKeyInfo) is transcribed from its source and checked on its own '
-                     'test vector in a unit test of the fix',
-                     'multihash 0.19.5, unsigned-varint 0.8.0, bs58 0.5.1, multiaddr 0.18.2 (whose text form uses multibase/base-x, a second '
-                     'base58 implementation: one model, compared differentially) are modelled from their source as read; versions pinned by Cargo.lock',
-                     'tools/gen_c18_sites.py (regex-level skeleton extractor: the places of the crate that make a PeerId from key material); '
-                     'type-directed `.into()` conversions outside functions named to_peer_id are invisible to it',
-                     'signature verification is a boolean parameter of the handshake models; the harness supplies valid signatures'],
-    'level_text': 'Proof: for the executable model of PeerId (multihash bytes = varint code, varint length, digest with the Multihash<64> '
-                  'limit and the unsigned-varint minimal/overflow/truncation rules; admission; derivation from a key encoding; bs58; the '
-                  'binary /p2p component; the textual multiaddress over p2p/ipfs/p2p-circuit; serde in both forms and JSON; the derived '
-                  'Eq/Ord) it is proved that id -> bytes/text/component/textual address/serde/JSON -> id is the identity on every valid id, '
-                  'that every parser and constructor (incl. PeerId::random) yields valid ids (the invariant behind the infallible conversion '
-                  "to multiaddr::PeerId), that litep2p's admission predicate equals the reference's, that every derivation entry point of "
-                  'the crate (from_public_key, both From impls, PublicKey/ed25519/RemotePublicKey::to_peer_id, the local ids, the Noise '
-                  'identity check and the TLS certificate parser) is one function `derive` of the canonical key encoding and independent of '
-                  'the received bytes (C18_single_derivation, with the list of derivation sites extracted from the source on every check and '
-                  'proved equal to the model\'s table), that Ed25519 ids are the identity multihash of 08 01 12 20 || key and injective in '
-                  'the key, RSA ids the SHA-256 multihash of the canonical message, that two valid ids are equal iff their bytes / texts / '
-                  'components are and that the derived Ord is the byte order, that base58 is a bijection, and that accepted inputs are '
-                  'canonical unless a varint uses its 10th byte (a refuted full statement with witness is kept). The model is tied to the '
-                  'Rust code by a three-way differential run.',
-    'level_note': 'Trusted: Coq kernel, ExtrOcamlBasic extraction, harness and hooks; SHA-256, prost, the curve check, X.509 parsing and '
-                  'signature verification enter as parameters/oracles; agreement with the reference implementation is differential testing '
-                  "plus transcribed rules, not a proof about the reference's code. The TLS-certificate and RSA paths exist only under cargo "
-                  'features quic/rsa and are run in the thorough tier (second harness build); in the quick tier they are covered by the '
-                  'derivation-site table only. Textual multiaddresses with protocols other than p2p/ipfs/p2p-circuit are outside the model. '
-                  'Secp256k1 and ECDSA identity keys are rejected by litep2p (UnknownKeyType), so there is no id to compare.',
-    'assumptions': ['bytes are below 256 and texts are ASCII (other inputs are rejected by model and code alike)',
-                    'Multihash<64> values keep the bytes beyond `size` zero (true of wrap and from_bytes; PeerId never truncates) — the '
-                    'derived Ord compares the whole array; exercised by the pair cases'],
-}
+ENTRY = {'coq_dir': 'C18',
+ 'harness': 'c18',
+ 'cases': {'quick': 15000, 'thorough': 250000},
+ 'consts': ['MAX_INLINE_KEY_LENGTH',
+            'MULTIHASH_IDENTITY_CODE',
+            'PEER_ID_MULTIHASH_SIZE',
+            'PEER_ID_SITES',
+            'PEER_ID_PARSE_SITES',
+            'PEER_ID_ADMITTED_KEY_TYPES',
+            'C18_KEY_TYPE_RSA',
+            'C18_KEY_TYPE_ED25519',
+            'C18_KEY_TYPE_SECP256K1',
+            'C18_KEY_TYPE_ECDSA'],
+ 'nontrivial_min_trace': 4,
+ 'aux_stream': {'tiers': ['thorough'],
+                'features': 'quic,rsa',
+                'target_dir': 'target-quic',
+                'args': '--aux 1',
+                'cases': {'thorough': 15000},
+                'corpus': 'corpus/C18-aux'},
+ 'rule': 'three-way run (litep2p, the extracted Coq model, libp2p-identity 0.2.14) over eleven kinds of input. A systematic prelude, the '
+         'same in every run, enumerates what is small enough: codes {0x00,0x11,0x12,0x13,0x16,0xb220} x every digest length 0..70 in '
+         'canonical form as bytes, base58 text, /p2p component and AddressRecord peer; one key blob of every length 0..100; key types '
+         '{0..5,127,128,2^31-1,2^31,2^32,2^32+1,2^32+2,2^64-1} x Data lengths {0,1,31,32,33,64} in canonical framing. Then seeded cases: '
+         '(1) byte strings around multihashes with declared!=actual lengths, zero-padded / over-long / overflowing / cut varints, trailing '
+         'and missing bytes, random strings -> PeerId::from_bytes and, on the same input, TryFrom<Vec<u8>>, binary Deserialize, a '
+         'human-readable deserializer that hands over bytes, Multihash::from_bytes + TryFrom<Multihash> / from_multihash (all must agree); '
+         "(2) their base58 texts with invalid characters, extra '1's, substitutions -> PeerId::from_str (with the error variant B58 / "
+         'MultiHash), str::parse, human-readable Deserialize, a binary deserializer that hands over a string, serde_json, /p2p/<text>, '
+         '/ipfs/<text>; (3) binary /p2p components with the same varint styles on protocol number and length -> Multiaddr::try_from + '
+         'try_from_multiaddr; (4) protobuf key blobs of 0-100 bytes from a protobuf-aware mutator -> from_public_key_protobuf (SHA-256 '
+         'computed by the model), the message as the real prost decoder reads it (type, Data), RemotePublicKey::from_protobuf_encoding + '
+         "to_peer_id versus the model's decoder + admission (only the curve check is an oracle bit) and the reference's "
+         'try_decode_protobuf + to_peer_id; (5) Ed25519 keypairs with canonical or mutated encodings through the real Noise identity check '
+         'with a valid signature, plus from_public_key, both From impls, PublicKey/ed25519 to_peer_id, is_public_key on the own key, '
+         'another key and the legacy SHA-256 id, and (one case in eight) Litep2p::new().local_peer_id(); (6) textual multiaddresses of p2p '
+         '/ ipfs / p2p-circuit components; (7) pairs of ids -> PartialEq, Ord/PartialOrd both ways, Hash against the byte order; (8) '
+         'PeerId::random draws; (11) a peer id and ANY binary multiaddress '
+         '(ip4/ip6/tcp/udp/quic-v1/ws/wss/dns4/memory/webrtc-direct/p2p-circuit/p2p components, byte-level /p2p variants, damage) -> '
+         'try_from_multiaddr, AddressRecord::new, AddressRecord::from_multiaddr. Every accepted id is rendered to bytes, base58 and a /p2p '
+         'component (compared with the model) and converted back through nine paths (Display and Debug included); result class (value / '
+         'reject / PANIC) is compared. Thorough tier, second stream (harness rebuilt with --features quic,rsa): (9) the keypair cases '
+         'through a TLS certificate whose libp2p extension carries the (mutated) encoding, parsed and verified by '
+         "crypto::tls::certificate::parse, plus the crate's own certificate generator; (10) rust-libp2p's RSA test keys with mutated "
+         'protobuf framing / DER through from_protobuf_encoding + to_peer_id, the Noise identity check and the TLS certificate with real '
+         'RSA signatures (model: prost decoder, admission with the rsa feature, SHA-256 of the canonical message; the X.509 parser is an '
+         'oracle bit only for non-canonical DER). A case is non-trivial when its trace has >= 4 numbers',
+ 'trusted_base': ['SHA-256 is an executable Gallina function (coq/common/Sha256.v, FIPS 180-4) checked on the NIST vectors inside Coq and '
+                  "against litep2p's multihash-codetable digest on every blob longer than 42 bytes and every RSA key; nothing is proved "
+                  'about it beyond "32 bytes out"; the theorems that mention a hash hold for every hash function',
+                  'the curve25519 point check (ed25519_dalek::VerifyingKey::from_bytes) and the X.509 / DER parser of RSA keys are not '
+                  'modelled: one oracle bit per case (`on_curve`, `x509` parameters of the theorems), the X.509 bit is consulted only when '
+                  'the Data field is not the canonical SubjectPublicKeyInfo. The prost decoder IS modelled (coq/common/Protobuf.v + '
+                  'fold_keymsg) and diffed field by field',
+                  'the reference is libp2p-identity 0.2.14 as linked into the harness (multiaddr::PeerId is the same type); its admission '
+                  'rule is also transcribed as ref_admits. Its protobuf decoder (quick-protobuf) is only compared differentially. Its '
+                  '`rsa` feature does not build offline (asn1_der missing), so for RSA the reference rule (SHA-256 of 08 00 12 len '
+                  'SubjectPublicKeyInfo) is transcribed from its source and checked on its own test vector in a unit test of the fix',
+                  'multihash 0.19.5, unsigned-varint 0.8.0, bs58 0.5.1, multiaddr 0.18.2 (protocol table: coq/C19/Formats.v; text form '
+                  'uses multibase/base-x, a second base58 implementation: one model, compared differentially) are modelled from their '
+                  'source as read; versions pinned by Cargo.lock',
+                  'tools/gen_c18_sites.py (regex-level extractor: derivation sites, parse sites, key-admission match arms, KeyType enum); '
+                  'type-directed `.into()` conversions outside functions named to_peer_id are invisible to it — but the `multihash` field '
+                  'is private to src/peer_id.rs, so every PeerId comes out of one of the listed constructors',
+                  'signature verification is a boolean parameter of the handshake models; the harness supplies valid signatures'],
+ 'level_text': 'Proof: for the executable model of PeerId (multihash bytes with the Multihash<64> limit and the unsigned-varint rules; '
+               'admission; derivation from a key encoding with SHA-256 itself; the prost decoder of keys.proto and the key admission of '
+               'RemotePublicKey; bs58; the binary /p2p component and general binary multiaddresses; the textual multiaddress over '
+               'p2p/ipfs/p2p-circuit; serde in both forms and JSON; the derived Eq/Ord; AddressRecord::new / from_multiaddr) it is proved '
+               'that id -> bytes / text / component / any address ending in /p2p / textual address / serde / JSON -> id is the identity on '
+               'every valid id; that every parser and constructor (incl. derive with SHA-256, PeerId::random) yields valid ids, which '
+               "satisfy the reference's admission rule (the invariant behind the infallible conversion to multiaddr::PeerId, used by "
+               "AddressRecord::new); that litep2p's admission predicate equals the reference's; that derive is the identity multihash up "
+               'to 42 bytes and the SHA-256 multihash above (closed form); that every derivation entry point of the crate is `derive` of '
+               'the canonical key encoding (site table extracted from the source), and composed with the modelled decoder: whatever bytes '
+               'a remote sends, an accepted identity has the id of the canonical encoding of the admitted key, Ed25519 ids are the '
+               'identity multihash of 08 01 12 20 || key, injective in the key and self-describing; that exactly Ed25519 (and RSA under '
+               'the cargo feature) of the four KeyType entries is admitted (tables extracted from keys.proto and the match arms); that two '
+               'valid ids are equal iff their bytes / texts / components are and the derived Ord is the byte order; that base58 is a '
+               'bijection; and canonicality EXACTLY: an accepted byte string / text / component is the rendering of its id iff it has the '
+               'canonical length, the other accepted inputs are 9 or 18 bytes longer (a 10-byte varint) — the full statement is refuted '
+               'with a witness (known finding class 1) and the re-encoding check that would repair it is shown to differ from the real '
+               'parser exactly on that class, which the reference accepts. The model is tied to the Rust code by a three-way differential '
+               'run.',
+ 'level_note': 'Trusted: Coq kernel, ExtrOcamlBasic extraction, harness and hooks; the curve check, X.509 parsing and signature '
+               'verification enter as parameters/oracle bits; SHA-256 is executable and tested, not proved; agreement with the reference '
+               "implementation is differential testing plus transcribed rules, not a proof about the reference's code. The TLS-certificate "
+               'and RSA paths exist only under cargo features quic/rsa and are run in the thorough tier (second harness build); in the '
+               'quick tier they are covered by the derivation-site table only. Identify::new and TransportManagerBuilder::build are '
+               'covered by the site table and (the latter) through Litep2p::new. Textual multiaddresses with protocols other than '
+               'p2p/ipfs/p2p-circuit are outside the model (binary ones are inside). Secp256k1 and ECDSA identity keys are rejected by '
+               'litep2p (UnknownKeyType), so there is no id to compare. `impl TryFrom<keys_proto::PublicKey> for crypto::PublicKey` has no '
+               'caller in the crate (dead code; its admission arm is in the extracted table). Canonicality vs. reference agreement: the '
+               'statement demands "accepts exactly what the reference accepts"; the over-long forms are accepted by the reference too, the '
+               'multiaddress path never shows litep2p the bytes, so no repair is made in litep2p (C18_strict_parser) and class 1 stays a '
+               'recorded finding about the title word "canonical".',
+ 'assumptions': ['bytes are below 256 and texts are ASCII (other inputs are rejected by model and code alike)',
+                 'Multihash<64> values keep the bytes beyond `size` zero (true of wrap and from_bytes; PeerId never truncates) — the '
+                 'derived Ord compares the whole array; exercised by the pair cases',
+                 'kinds 5/9: the public key in the case is the one of the secret key (the harness recomputes it) and is a curve point',
+                 'kind 10: the X.509 parser accepts the canonical SubjectPublicKeyInfo of a valid RSA key as that key (the oracle bit '
+                 'covers every other Data field)'],
+ 'coq_deps': ['C19'],
+ 'clause_map': [['"The peer id of a public key is the identity multihash of its protobuf encoding when that encoding is at most 42 bytes '
+                 'and its SHA-256 multihash otherwise"',
+                 'C18_derive_sha256 (closed, SHA-256 itself), C18_derive_inline, C18_derive_hashed, C18_ed25519_inline, C18_ed25519_id, '
+                 'C18_rsa_id, C18_key_encoding_is_message, C18_single_derivation + C18_derivation_sites (every entry point is this '
+                 'function)',
+                 'kind 4 (blob of every length 0..100: from_public_key_protobuf vs derive sha256), kinds 5/9/10 (from_public_key, From, '
+                 'to_peer_id, Noise, TLS, Litep2p::new)'],
+                ['"identical to what the reference libp2p implementation derives"',
+                 'C18_remote_identity_canonical, C18_remote_identity_one_id, C18_identity_encoding_irrelevant (the id depends on the '
+                 'admitted key only); the reference side is differential',
+                 'kind 4 (refacc = acc, refpid = pid), kind 5/9 (refpid, reference encode_protobuf = to_protobuf_encoding), kind 10 '
+                 '(transcribed RSA rule)'],
+                ['"Parsing from bytes, base58 text or a multiaddress accepts exactly what the reference accepts"',
+                 'C18_admits_reference, C18_infallible_conversion, C18_parsed_p2p_has_id, C18_parse_sites, C18_text_error_variant (which '
+                 'error); C18_strict_parser (why no canonicalising repair)',
+                 'kinds 1, 2, 3, 6, 11: refacc / refsame flags on every case, entry-point agreement flags'],
+                ['"and never panics"',
+                 'totality of the model functions; C18_parsed_valid / C18_parsed_text_valid / C18_parsed_component_valid / '
+                 'C18_addr_text_valid / C18_multiaddr_id_valid / C18_derived_valid / C18_derived_roundtrip / C18_random_valid + '
+                 'C18_infallible_conversion (the expect() in From<PeerId> for multiaddr::PeerId cannot fire), C18_is_public_key_total, '
+                 'C18_address_record_new',
+                 'every case runs under catch_unwind (PANIC mark in the trace); accepted_tail performs the infallible conversion on every '
+                 'accepted id; kind 11 drives AddressRecord::new'],
+                ['"converting any accepted peer id to bytes, text, a multiaddress component or its serialized form and back yields the '
+                 'same peer id"',
+                 'C18_bytes_roundtrip, C18_text_roundtrip, C18_component_roundtrip, C18_component_is_multiaddr, '
+                 'C18_multiaddr_trailing_p2p, C18_multiaddr_roundtrip, C18_addr_text_roundtrip, C18_serde_roundtrip, C18_serde_sound, '
+                 'C18_bytes_normalise, C18_b58_decode_encode, C18_b58_encode_decode, C18_eq_iff_bytes, C18_ord_is_bytes_order, '
+                 'C18_text_alphabet',
+                 'flags f1..f9 of every accepted case (kinds 1, 2, 3, 6, 8), renderings compared with the model'],
+                ['title: "canonical"',
+                 'C18_bytes_canonical_iff, C18_text_canonical_iff, C18_component_canonical_iff, C18_bytes_header, '
+                 'C18_bytes_noncanonical_length, C18_bytes_canonical_partial, C18_text_canonical_partial, C18_addr_text_canonical_partial, '
+                 'C18_bytes_canonical_refuted (finding class 1), C18_varint_minimal, C18_varint_roundtrip; canonical key encoding: '
+                 'C18_ed25519_encoding_roundtrip, C18_ed25519_encoding_unique, C18_keymsg_roundtrip, C18_key_admission_canonical',
+                 'canon_ok on kinds 1-3 (input = rendering), known_class 1 = exactly +9/+18 bytes (bytes, text) or the listed sums '
+                 '(component)'],
+                ['quantifier: "all ed25519 keys and all protobuf-encoded key blobs of 0..100 bytes"',
+                 'C18_key_admission_sound, C18_key_admission_other_types, C18_key_types, C18_admission_tables, C18_ed25519_try_from_bytes, '
+                 'C18_ed25519_injective, C18_is_public_key_own, C18_is_public_key_true, C18_is_public_key_other',
+                 'kind 4 (message fields as read by the real prost decoder vs decode_keymsg; acc vs admit_key), systematic key-type x '
+                 'length sweep'],
+                ['anchor: src/transport/manager/address.rs', 'C18_address_record_new, C18_address_record_components', 'kind 11']]}
